@@ -94,7 +94,12 @@ pub fn meta(tier: Tier) -> CheckMeta {
             "per key, issue order is consistent with batch creation order (DESIGN 7: the C09/C10 consistency rule)".into(),
             "duplicates yielded by set iteration are counted, not flagged".into(),
         ],
-        parts: vec![PartSpec { name: "native", nshards: 16, budget_s: tier.pick(300, 2400), env: vec![], program: None, prepare: None, sanitizer: None }],
+        parts: {
+            let mut parts = vec![PartSpec { name: "native", nshards: 16, budget_s: tier.pick(300, 2400), env: vec![], program: None, prepare: None, sanitizer: None }];
+            if tier == Tier::Thorough { parts.push(crate::sup::sanitizer_part("miri", 8, tier.pick(900, 2400))); }
+            if tier == Tier::Thorough { parts.push(crate::sup::sanitizer_part("tsan", 8, 2400)); }
+            parts
+        },
         must_be_nonzero: vec![
             ("store_reads_after_eviction", "no read ever went to the backing store"),
             ("commits_placed", "commit gate never used"),
